@@ -1,7 +1,8 @@
 /-
 C13 — Collection, set and sequence functions match reference semantics.
 
-Property theorems only; helper lemmas live in `CtyModel/Lemmas/Stdlib*.lean`.
+Property theorems only; helper lemmas live in `CtyModel/Lemmas/Stdlib*.lean` and
+`CtyModel/Lemmas/d13*.lean`.
 
 Every statement is about the `Type` / `Impl` callbacks of `CtyModel.Stdlib`
 (`Stdlib/Collection.lean`, `Sequence.lean`, `SetFns.lean`) — transliterations of
@@ -21,7 +22,21 @@ ordinary error" (never a panic).  `e.equals e = true` is reflexivity of
 `Type.Equals` on the element type, which holds for every well-formed type
 (C07 `equals_refl`).  `(vs.length : Int) ≤ maxInt`: a Go slice length is an
 `int`.  `Env` carries what the callbacks obtain from package `convert` and from
-the set hash function; the theorems hold for every `Env`.
+the set hash function; the theorems hold for every `Env` unless they name
+`modelEnv` (Stdlib/d13Env.lean): the environment in which unify, convert, hash and
+the hash-byte order are the Lean models of those packages.  The correspondence
+runs every call twice — `std.call` with oracle columns from the real library,
+`std.callm` under `modelEnv` with no oracle — so a `modelEnv` theorem speaks about
+an instance that is diffed against /repo.
+
+Deepening pass (lemmas in `Lemmas/d13*.lean`): set algebra, `sethaselement` and
+`setproduct` of sets are stated on a CARRIER — members admitted by
+`Payload.member ety ns` (well-formed for the element type, wholly known, mark-free,
+numbers from a list `ns` that is `HashCoherentNums`, a decidable check) whose hash
+the environment answers as the hash model does (`Env.hashAgrees`) — on which
+`setRules` is PROVED lawful (`setrules_lawful_on_members`); `Payload.plainMember e p`
+is the same without the condition on numbers (enough where no hash is involved:
+`distinct`, `contains`).  `NoPanic r` reads "`r` is not a Go panic".
 -/
 import CtyModel.Lemmas.StdlibCall
 import CtyModel.Lemmas.Asc
@@ -1049,6 +1064,19 @@ theorem merge_arguments_iterable (E : Env) (e : Ty) (ns : List String) (ts : Lis
     (ks : List String) (vs : List Payload) :
     Iterable E ⟨.map e, .smap ks vs⟩ ∧ Iterable E ⟨.object ns ts os, .smap ks vs⟩ :=
   iterable_map_object E e ns ts os ks vs
+
+/-- the homogeneity hypothesis of `merge_map` holds when every argument has the map type -/
+theorem merge_map_bindings_typed (E : Env) (e : Ty) (args : List Value) (hty : ∀ a ∈ args, a.ty = .map e) :
+    ∀ kv ∈ allBindings E args, kv.2.ty = e :=
+  allBindings_map_ty E e args hty
+
+/-- **keys, values and the set algebra fail outside their domains**: `keys` / `values` of a
+value that is neither a map nor an object; set functions on sets whose element types do
+not unify -/
+theorem keys_values_setop_fail_outside_domain (E : Env) (m : Value) (args : List Value) (etys : List Ty) :
+    (isMapTy m.ty = false → isObjectTy m.ty = false → Fails (keysType [m]) ∧ Fails (valuesType [m])) ∧
+    (setOpElemTypes args = .ok (some etys) → etys ≠ [] → E.unify etys = .ok none → Fails (setOpType E args)) :=
+  keys_values_setop_outside E m args etys
 
 /-- **never a Go panic**: `element`, `index`, `slice`, `chunklist` on a known mark-free list,
 whatever known numbers they are given (whole or fractional, of either sign, beyond
